@@ -1,7 +1,7 @@
 (* RbcBracha: the Bracha argument on the network model of RbcModel (C14): invariants of every schedule (fold_left gstep)
    giving agreement and integrity of the delivered values. *)
 From Coq Require Import ZArith List Bool Lia.
-From LT Require Import RbcModel RbcLemmas RbcOrder RbcStep RbcAgreement.
+From LT Require Import RbcModel RbcLemmas RbcOrder RbcStep RbcStep2 RbcAgreement.
 Import ListNotations.
 Local Open Scope Z_scope.
 
@@ -549,6 +549,309 @@ Proof.
     + destruct (IH _ _ _ I A) as (es1 & v & coin & es2 & -> & Hj & J).
       exists es1, v, coin, (es2 ++ [e]). rewrite <- app_assoc. auto.
     + exists es, v, coin, []. auto.
+Qed.
+
+(* ==== second layer: slots fetched through the out-of-order handler (l-retrieve / l-deliver) ============== *)
+Notation pstep2 := (pstep2 n t H).
+Notation laccept := (laccept n t).
+Notation svalid := (svalid n t H).
+
+Lemma gstep_cases2 : forall g e,
+  gstep g e = g \/
+  exists p st' out r offer,
+    hon p /\ qstep (gp g p) st' out r offer /\ pstep2 (gp g p) st' out r offer /\
+    (forall l m, offer = Some (l, m) -> can_recv n byz g p l m = true) /\
+    gp (gstep g e) = updZ (gp g) p st' /\
+    gsent (gstep g e) = gsent g ++ tagged p out /\
+    glog (gstep g e) = glog g ++ log_of p r.
+Proof.
+  intros g e. destruct e; cbn [RbcModel.gstep].
+  - destruct (honest n byz p) eqn:Hp; auto. right. unfold broadcast.
+    set (s' := if fifo (gp g p) then sq (gp g p) + 1 else coin).
+    exists p, (set_sq (gp g p) s'), (to_all n (Msg (cur (gp g p)) p s' 1 m)), RNone, None.
+    split; [exact Hp|]. split; [|split; [|split; [discriminate|cbn; rewrite app_nil_r; auto]]].
+    + apply qstep_same; [repeat split|]. intros dst x I. apply in_to_all in I. subst. reflexivity.
+    + apply pstep2_same; auto. intros dst x I. apply in_to_all in I. subst. cbn. lia.
+  - destruct (honest n byz p && can_recv n byz g p l m) eqn:G; auto. right. apply andb_true_iff in G. destruct G as [Hp C].
+    eexists p, _, _, _, (Some (l, m)). split; [exact Hp|]. split; [apply pstep_qstep; apply (deliver_pstep n t H toolong skip)|].
+    split; [apply (deliver_pstep2 n t H toolong skip)|].
+    split; [intros l0 m0 E; inversion E; subst; exact C|]. cbn. auto.
+  - destruct (honest n byz p) eqn:Hp; auto. right.
+    eexists p, _, _, _, None. split; [exact Hp|]. split; [apply pstep_qstep; apply (deliver_pstep n t H toolong skip)|].
+    split; [apply (deliver_pstep2 n t H toolong skip)|].
+    split; [discriminate|]. cbn. auto.
+  - destruct (honest n byz p && can_recv n byz g p l m) eqn:G; auto. right. apply andb_true_iff in G. destruct G as [Hp C].
+    eexists p, _, _, _, (Some (l, m)). split; [exact Hp|].
+    split; [apply pstep_qstep; apply (deliver_from_pstep n t H toolong skip p (gp g p) i (Some (l, m)))|].
+    split; [apply (deliver_from_pstep2 n t H toolong skip p (gp g p) i (Some (l, m)))|].
+    split; [intros l0 m0 E; inversion E; subst; exact C|]. unfold apply_from.
+    destruct (snd (deliver_from n t skip H toolong p (gp g p) i (Some (l, m)))); cbn; auto.
+  - destruct (honest n byz p) eqn:Hp; auto. right.
+    eexists p, _, _, _, None. split; [exact Hp|].
+    split; [apply pstep_qstep; apply (deliver_from_pstep n t H toolong skip p (gp g p) i None)|].
+    split; [apply (deliver_from_pstep2 n t H toolong skip p (gp g p) i None)|].
+    split; [discriminate|]. unfold apply_from.
+    destruct (snd (deliver_from n t skip H toolong p (gp g p) i None)); cbn; auto.
+  - destruct (honest n byz p) eqn:Hp; auto. right.
+    exists p, (set_id (gp g p) id f), [], RNone, None. split; [exact Hp|].
+    split; [|split; [|split; [discriminate|cbn; rewrite !app_nil_r; auto]]].
+    + apply qstep_same; [unfold set_id; cbn; repeat split|intros ? ? []].
+    + apply pstep2_same; auto; intros ? ? [].
+  - destruct (honest n byz p) eqn:Hp; auto. right.
+    exists p, (recover_id (gp g p) id f), [], RNone, None. split; [exact Hp|].
+    split; [|split; [|split; [discriminate|cbn; rewrite !app_nil_r; auto]]].
+    + apply qstep_same; [unfold recover_id; destruct (recov (gp g p) id) as [[? ?]|]; cbn; repeat split|intros ? ? []].
+    + apply pstep2_same; try (unfold recover_id; destruct (recov (gp g p) id) as [[? ?]|]; reflexivity); intros ? ? [].
+  - destruct (honest n byz p) eqn:Hp; auto. right.
+    exists p, (unset_id (gp g p) f), [], RNone, None. split; [exact Hp|].
+    split; [|split; [|split; [discriminate|cbn; rewrite !app_nil_r; auto]]].
+    + apply qstep_same; [unfold unset_id; destruct (stack (gp g p)) as [|[[? ?] ?] ?]; cbn; repeat split|intros ? ? []].
+    + apply pstep2_same; try (unfold unset_id; destruct (stack (gp g p)) as [|[[? ?] ?] ?]; reflexivity); intros ? ? [].
+Qed.
+
+Definition echoed (g : gst) (q : Z) (tg : tagT) (d : Z) : Prop :=
+  exists dst m, In (q, dst, m) (gsent g) /\ mtag m = tg /\ m_act m = 2 /\ m_pay m = d.
+(* d is supported for tg: n - t distinct parties are Byzantine or have really echoed d *)
+Definition Sup (g : gst) (tg : tagT) (d : Z) : Prop :=
+  exists L, NoDup L /\ n - t <= Z.of_nat (length L) /\
+    forall l, In l L -> 0 <= l < n /\ (byz l = true \/ echoed g l tg d).
+
+Definition TH (g : gst) := forall q tg x, mbar (gp g q) tg = Some x -> echoed g q tg (H x) \/ Sup g tg (H x).
+Definition OM (g : gst) := forall q dst m, In (q, dst, m) (gsent g) -> m_act m = 7 ->
+  echoed g q (mtag m) (H (m_pay m)) \/ Sup g (mtag m) (H (m_pay m)).
+Definition RH (g : gst) := forall p k tg, filt (gp g p) FDeliver k tg = true ->
+  0 <= k < n /\ (byz k = true \/ exists m, In (k, p, m) (gsent g) /\ mtag m = tg /\ m_act m = 7 /\ m_pay m = rbuf (gp g p) tg k).
+Definition J8a (g : gst) := forall q tg, In tg (dbuf (gp g q)) -> exists x, mbar (gp g q) tg = Some x /\ Sup g tg (H x).
+Definition J8b (g : gst) := forall q tg v, In (q, tg, v) (glog g) -> Sup g tg (H v).
+Definition INV2 (g : gst) : Prop := TH g /\ OM g /\ RH g /\ J8a g /\ J8b g.
+
+Lemma Sup_unique : forall g, INV g -> forall tg d d', Sup g tg d -> Sup g tg d' -> d = d'.
+Proof.
+  intros g (_ & _ & _ & A3 & _) tg d d' (L1 & ND1 & Len1 & AL1) (L2 & ND2 & Len2 & AL2).
+  destruct (quorum_intersect_honest n t B L1 L2) as (l & J1 & J2 & NB); auto.
+  { intros l J. apply AL1 in J. tauto. } { intros l J. apply AL2 in J. tauto. }
+  destruct (AL1 l J1) as (_ & [Y|(dst1 & m1 & Im1 & Tm1 & Am1 & Pm1)]); [exfalso; auto|].
+  destruct (AL2 l J2) as (_ & [Y|(dst2 & m2 & Im2 & Tm2 & Am2 & Pm2)]); [exfalso; auto|].
+  rewrite <- Pm1, <- Pm2. eapply A3; eauto. congruence.
+Qed.
+
+Lemma ready_Sup : forall g, INV g -> forall q dst x, In (q, dst, x) (gsent g) -> m_act x = 3 -> Sup g (mtag x) (m_pay x).
+Proof.
+  intros g (C1 & _ & _ & _ & _ & A5 & _) q dst x I A.
+  destruct (A5 _ _ _ I A) as (p1 & _ & E1).
+  destruct (C1 p1 (mtag x) (m_pay x)) as (L & ND & Len & AL).
+  exists L. split; [exact ND|]. split; [lia|]. intros l J. destruct (AL l J) as (R & _ & [Y|(m & Im & Tm & Am & Pm)]).
+  - split; auto.
+  - split; auto. right. exists p1, m. auto.
+Qed.
+
+Lemma dbar_Sup : forall g, INV g -> forall p tg d, dbar (gp g p) tg = Some d -> Sup g tg d.
+Proof.
+  intros g I p tg d D. destruct (dbar_has_ready g I _ _ _ D) as (l & m & Im & Tm & Am & Pm).
+  rewrite <- Tm, <- Pm. eapply ready_Sup; eauto.
+Qed.
+
+Lemma all_or : forall (P : Z -> Prop) (S : Prop) (L : list Z),
+  (forall k, In k L -> P k \/ S) -> S \/ forall k, In k L -> P k.
+Proof.
+  intros P S. induction L as [|a r IH]; intros A.
+  - right. intros k [].
+  - destruct (A a (or_introl eq_refl)) as [Pa|Sa]; [|left; exact Sa].
+    destruct IH as [Sr|Pr]; [intros k I; apply A; right; exact I|left; exact Sr|].
+    right. intros k [<-|I]; auto.
+Qed.
+
+Lemma laccept_Sup : forall g, RH g -> OM g -> forall p tg x, laccept (gp g p) tg x -> Sup g tg (H x).
+Proof.
+  intros g Rh Om p tg x (L & ND & Len & AL).
+  destruct (all_or (fun k => 0 <= k < n /\ (byz k = true \/ echoed g k tg (H x))) (Sup g tg (H x)) L) as [S|A]; auto.
+  - intros k I. destruct (AL k I) as (F & R). destruct (Rh _ _ _ F) as (Rg & [Y|(m & Im & Tm & Am & Pm)]).
+    + left. auto.
+    + rewrite R in Pm. destruct (Om _ _ _ Im Am) as [E|S].
+      * left. split; auto. right. rewrite Tm, Pm in E. exact E.
+      * right. rewrite Tm, Pm in S. exact S.
+  - exists L. auto.
+Qed.
+
+Lemma svalid_Sup : forall g, INV g -> RH g -> OM g -> forall p tg, svalid (gp g p) tg ->
+  exists x, mbar (gp g p) tg = Some x /\ Sup g tg (H x).
+Proof.
+  intros g I Rh Om p tg [(d & D & M)|(x & M & LA)].
+  - pose proof (dbar_nonzero g I _ _ _ D) as NZ. destruct (mbar (gp g p) tg) as [v|]; [|contradiction].
+    destruct M as [M|M]; [|contradiction]. exists v. split; auto. rewrite M. eapply dbar_Sup; eauto.
+  - exists x. split; auto. eapply laccept_Sup; eauto.
+Qed.
+
+Lemma log_of_in : forall p0 r0 q tg v, In (q, tg, v) (log_of p0 r0) -> q = p0 /\ exists who, r0 = RDeliver who tg v.
+Proof.
+  intros p0 r0 q tg v I. destruct r0 as [|who tg0 v0|]; cbn in I; try contradiction.
+  destruct I as [I|[]]. injection I as <- <- <-. eauto.
+Qed.
+
+Section OneStep2.
+Variables (g g' : gst) (p : Z) (st' : pst) (out : list (Z * msg)) (r : dres) (offer : option (Z * msg)).
+Hypothesis Hp : hon p.
+Hypothesis Q : qstep (gp g p) st' out r offer.
+Hypothesis Q2 : pstep2 (gp g p) st' out r offer.
+Hypothesis CR : forall l m, offer = Some (l, m) -> can_recv n byz g p l m = true.
+Hypothesis Egp : gp g' = updZ (gp g) p st'.
+Hypothesis Esent : gsent g' = gsent g ++ tagged p out.
+Hypothesis Elog : glog g' = glog g ++ log_of p r.
+Hypothesis Ig : INV g.
+Hypothesis Ig' : INV g'.
+
+Let smono := sent_mono g g' p out Esent.
+Let scases := state_cases g g' p st' Egp.
+
+Lemma snew : forall q dst x, In (q, dst, x) (gsent g') -> In (q, dst, x) (gsent g) \/ (q = p /\ In (dst, x) out).
+Proof.
+  intros q dst x I. rewrite Esent in I. apply in_app_or in I. destruct I as [I|I]; auto.
+  right. unfold tagged in I. apply in_map_iff in I. destruct I as ([d0 x0] & E & I). cbn in E.
+  injection E as <- <- <-. auto.
+Qed.
+
+Lemma echoed_mono : forall q tg d, echoed g q tg d -> echoed g' q tg d.
+Proof. intros q tg d (dst & m & I & E). exists dst, m. split; auto. Qed.
+Lemma Sup_mono : forall tg d, Sup g tg d -> Sup g' tg d.
+Proof.
+  intros tg d (L & ND & Len & AL). exists L. split; [exact ND|]. split; [exact Len|].
+  intros l I. destruct (AL l I) as (R & [Y|E]); split; auto. right. apply echoed_mono. exact E.
+Qed.
+
+Lemma RH_step : RH g -> RH g'.
+Proof.
+  intros IH q k tg F. destruct (scases q) as [[-> E]|[N E]]; rewrite E in *.
+  - destruct Q2 as (_ & _ & FD & _). destruct (FD k tg F) as [[F0 R0]|(m & Eo & Tm & Am & R0)].
+    + destruct (IH _ _ _ F0) as (R & [Y|(m & Im & Tm & Am & Pm)]); split; auto.
+      right. exists m. repeat split; auto. congruence.
+    + destruct (can_recv_spec g p k m (CR k m Eo)) as (R & [Y|Im]); split; auto.
+      right. exists m. repeat split; auto.
+  - destruct (IH _ _ _ F) as (R & [Y|(m & Im & Tm & Am & Pm)]); split; auto.
+    right. exists m. repeat split; auto.
+Qed.
+
+Lemma OM_step : TH g -> OM g -> OM g'.
+Proof.
+  intros Th IH q dst m I A. apply snew in I. destruct I as [I|[-> I]].
+  - destruct (IH _ _ _ I A); [left; apply echoed_mono|right; apply Sup_mono]; auto.
+  - destruct Q2 as (_ & S7 & _). pose proof (S7 _ _ I A) as M.
+    destruct (Th _ _ _ M); [left; apply echoed_mono|right; apply Sup_mono]; auto.
+Qed.
+
+(* what the new payload of a tag is backed by *)
+Lemma new_mbar_backed : RH g' -> OM g' -> forall tg x, mbar st' tg = Some x -> mbar (gp g p) tg <> Some x ->
+  (mbar (gp g p) tg = None /\ echoed g' p tg (H x)) \/ Sup g' tg (H x).
+Proof.
+  intros Rh Om tg x M NE. destruct Q2 as (Mc & _). destruct (Mc tg) as [E|(x' & E & C)]; [congruence|].
+  rewrite M in E. inversion E; subst x'. destruct C as [(N & id & j & s & -> & A)|[D|LA]].
+  - left. split; auto. exists p, (Msg id j s 2 (H x)). split; [|repeat split].
+    rewrite Esent. apply in_or_app. right. unfold tagged. apply in_map_iff. exists (p, Msg id j s 2 (H x)). split; auto.
+    apply A. apply range_in. unfold honest, is_party in Hp. b2p. lia.
+  - right. apply (dbar_Sup g' Ig' p). destruct (scases p) as [[_ X]|[X _]]; [|congruence]. rewrite X. exact D.
+  - right. apply (laccept_Sup g' Rh Om p). destruct (scases p) as [[_ X]|[X _]]; [|congruence]. rewrite X. exact LA.
+Qed.
+
+Lemma TH_step : RH g' -> OM g' -> TH g -> TH g'.
+Proof.
+  intros Rh Om IH q tg x M. destruct (scases q) as [[-> E]|[N E]]; rewrite E in *.
+  - assert (DE : mbar (gp g p) tg = Some x \/ mbar (gp g p) tg <> Some x).
+    { destruct (mbar (gp g p) tg) as [y|]; [destruct (Z.eq_dec y x); [left; congruence|right; congruence]|right; discriminate]. }
+    destruct DE as [Y|Y].
+    + destruct (IH _ _ _ Y); [left; apply echoed_mono|right; apply Sup_mono]; auto.
+    + destruct (new_mbar_backed Rh Om tg x M Y) as [[_ X]|X]; auto.
+  - destruct (IH _ _ _ M); [left; apply echoed_mono|right; apply Sup_mono]; auto.
+Qed.
+
+Lemma dbuf_carry : RH g' -> OM g' -> J8a g -> forall tg, In tg (dbuf (gp g p)) ->
+  exists x, mbar st' tg = Some x /\ Sup g' tg (H x).
+Proof.
+  intros Rh Om IH tg I. destruct (IH _ _ I) as (x & M & S).
+  destruct Q2 as (Mc & _). destruct (Mc tg) as [E|(x' & E & C)].
+  - exists x. split; [congruence|apply Sup_mono; exact S].
+  - exists x'. split; auto. destruct (Z.eq_dec x' x) as [->|NE]; [apply Sup_mono; exact S|].
+    assert (NN : mbar (gp g p) tg <> Some x') by congruence.
+    destruct (new_mbar_backed Rh Om tg x' E NN) as [[N _]|X]; [congruence|exact X].
+Qed.
+
+Lemma J8a_step : RH g' -> OM g' -> J8a g -> J8a g'.
+Proof.
+  intros Rh Om IH q tg I. destruct (scases q) as [[-> E]|[N E]]; rewrite E in *.
+  - pose proof Q2 as Q2'. destruct Q2' as (_ & _ & _ & _ & Bf). destruct (Bf tg I) as [J|J].
+    + apply dbuf_carry; auto.
+    + destruct (svalid_Sup g' Ig' Rh Om p tg) as (x & M & S).
+      { destruct (scases p) as [[_ X]|[X _]]; [|congruence]. rewrite X. exact J. }
+      exists x. split; auto. destruct (scases p) as [[_ X]|[X _]]; [|congruence]. rewrite X in M. exact M.
+  - destruct (IH _ _ I) as (x & M & S). exists x. split; auto. apply Sup_mono. exact S.
+Qed.
+
+Lemma J8b_step : RH g' -> OM g' -> J8a g -> J8b g -> J8b g'.
+Proof.
+  intros Rh Om IHa IH q tg v I. rewrite Elog in I. apply in_app_or in I. destruct I as [I|I].
+  - apply Sup_mono. eapply IH; eauto.
+  - apply log_of_in in I. destruct I as (-> & who & Er).
+    pose proof Q2 as Q2'. destruct Q2' as (_ & _ & _ & Dl & _). destruct (Dl who tg v Er) as (M & [V|V]).
+    + destruct (svalid_Sup g' Ig' Rh Om p tg) as (x & M' & S).
+      { destruct (scases p) as [[_ X]|[X _]]; [|congruence]. rewrite X. exact V. }
+      destruct (scases p) as [[_ X]|[X _]]; [|congruence]. rewrite X in M'. congruence.
+    + destruct (dbuf_carry Rh Om IHa tg V) as (x & M' & S). congruence.
+Qed.
+
+Lemma INV2_onestep : INV2 g -> INV2 g'.
+Proof.
+  intros (Th & Om & Rh & A8a & A8b).
+  assert (Rh' : RH g') by (apply RH_step; auto).
+  assert (Om' : OM g') by (apply OM_step; auto).
+  unfold INV2. split; [apply TH_step; auto|]. split; [exact Om'|]. split; [exact Rh'|].
+  split; [apply J8a_step; auto|apply J8b_step; auto].
+Qed.
+End OneStep2.
+
+Lemma INV2_init : INV2 ginit.
+Proof.
+  unfold INV2. split; [|split; [|split; [|split]]].
+  - intros q tg x M. cbn in M. discriminate.
+  - intros q dst m [].
+  - intros q k tg F. cbn in F. discriminate.
+  - intros q tg [].
+  - intros q tg v [].
+Qed.
+
+Lemma INV2_step : forall g e, INV g -> INV2 g -> INV2 (gstep g e).
+Proof.
+  intros g e I I2. destruct (gstep_cases2 g e) as [E|(p & st' & out & r & offer & Hp & Q & Q2 & CR & E1 & E2 & E3)].
+  - rewrite E. exact I2.
+  - eapply INV2_onestep; eauto. apply INV_step. exact I.
+Qed.
+
+Theorem INV2_run : forall es, INV (run es) /\ INV2 (run es).
+Proof.
+  intros es. apply (grun_ind n t skip H toolong byz (fun g => INV g /\ INV2 g)).
+  - split; [exact INV_init|exact INV2_init].
+  - intros g e [I I2]. split; [apply INV_step; exact I|apply INV2_step; auto].
+Qed.
+
+(* AGREEMENT, every slot: two honest deliveries of one slot carry values with the same digest *)
+Theorem agreement_digest_full : forall es p q tg v v',
+  In (p, tg, v) (glog (run es)) -> In (q, tg, v') (glog (run es)) -> H v = H v'.
+Proof.
+  intros es p q tg v v' I1 I2. destruct (INV2_run es) as (I & _ & _ & _ & _ & A8b).
+  eapply Sup_unique; eauto.
+Qed.
+
+(* INTEGRITY, every slot *)
+Theorem integrity_digest_full : forall es p id j s v,
+  In (p, (id, j, s), v) (glog (run es)) -> byz j = false ->
+  exists e m, In (j, e, m) (gsent (run es)) /\ mtag m = (id, j, s) /\ m_act m = 1 /\ H (m_pay m) = H v.
+Proof.
+  intros es p id j s v I1 Hj. destruct (INV2_run es) as (I & _ & _ & _ & _ & A8b).
+  destruct (A8b _ _ _ I1) as (L & ND & Len & AL).
+  destruct (nodup_exceeds_honest B L ND) as (l & J & NB); [lia|].
+  destruct (AL l J) as (_ & [Y|(dst & x & Ix & Tx & Ax & Px)]); [exfalso; auto|].
+  destruct I as (_ & _ & _ & _ & A4 & _).
+  destruct (A4 _ _ _ Ix Ax) as (m & Tm & Am & Pm & M).
+  assert (Jx : m_j x = j). { unfold mtag in Tx. inversion Tx. reflexivity. }
+  rewrite Jx in M. destruct M as [M|M]; [congruence|].
+  exists l, m. repeat split; auto; congruence.
 Qed.
 
 End Bracha.
